@@ -31,8 +31,8 @@ FILL = st.lists(st.sampled_from([0x00, 0x3C, 0x04, 0x23, 0x0B, 0xA7]), min_size=
 
 
 @st.composite
-def templates(draw, org, frame):
-    kind = draw(st.sampled_from(['halt', 'halt', 'haltb', 'block', 'prefix', 'out', 'ay', 'im2', 'ei']))
+def templates(draw, org, frame, kind=None, pb_v=None):
+    kind = kind or draw(st.sampled_from(['halt', 'halt', 'haltb', 'block', 'prefix', 'out', 'ay', 'im2', 'ei']))
     if kind == 'ay' and frame != 70908:
         kind = 'prefix'       # the AY chip (and its state in snapshots) is documented for 128K machines only
     t = None
@@ -64,6 +64,13 @@ def templates(draw, org, frame):
             v = draw(st.sampled_from([0, 1, 5, 7, 0x10, 0x17, 0x20, 0xFF]) | st.integers(0, 255))
             code += [0x01, port & 255, port >> 8, 0x3E, v, 0xED, 0x79]
         code += draw(FILL)
+    elif kind == 'pageblk':
+        # a block OUT (OUTI/OUTD/OTIR/OTDR) that pages another bank in, then reads of 0xC000+ during the display period:
+        # whether those reads are contended depends on the bank the block OUT selected
+        v = pb_v
+        op = draw(st.sampled_from([0xA3, 0xAB, 0xB3, 0xBB]))
+        code = [0x21, (org + 24) & 255, ((org + 24) >> 8) & 255, 0x01, 0xFD, 0x01, 0xED, op] + [0x3A, 0x00, 0xC1] * 4 + [0x00] * 4 + [v, v, v]
+        t = draw(st.integers(14400, 50000))
     elif kind == 'ay':
         # select an AY register (or none: values >= 16 deselect), then - possibly in the other leg - write the data
         # port and read the register port back into memory
@@ -89,8 +96,19 @@ def cases(draw, tier):
     parts = []
     kinds = []
     t_hint = None
-    for _ in range(draw(st.integers(1, 3))):
-        if draw(st.integers(0, 2)):
+    # a dedicated shape (128K): the paging block OUT first, during the display period, selecting a bank whose contention
+    # differs from the one paged in at the start, and few enough operations for every split point to be tried
+    pb = machine == '128K' and draw(st.integers(0, 7)) == 0
+    pb_v = draw(st.sampled_from([0x00, 0x01, 0x03, 0x06, 0x11, 0x07]))
+    if pb:
+        org = draw(st.sampled_from([0x8000, 0x6000]))
+    for i in range(draw(st.integers(1, 3))):
+        if pb and i == 0:
+            k, code, t = draw(templates(org, frame, 'pageblk', pb_v))
+            kinds.append(k)
+            parts.append(code)
+            t_hint = t
+        elif draw(st.integers(0, 2)):
             k, code, t = draw(templates(org, frame))
             if k.startswith('haltb:'):
                 if not parts:
@@ -105,7 +123,7 @@ def cases(draw, tier):
             kinds.append('prog')
             parts.append(draw(gen_prog.program(org, 10)))
     code = [b for p in parts for b in p]
-    if t_hint is not None and draw(st.integers(0, 3)):
+    if t_hint is not None and (pb or draw(st.integers(0, 3))):
         tstates = t_hint % frame
     else:
         tstates = draw(gen_prog.frame_times(frame))
@@ -113,8 +131,11 @@ def cases(draw, tier):
     # 'long' runs: enough operations (a HALT wait counts one per 4 T-states) for the leg after the split to reach the
     # next frame interrupt from any frame position, so that a frame position that is saved or restored wrongly shows
     # up as an interrupt accepted at the wrong time even when it is wrong in the same way in both runs' final files
-    long_run = draw(st.sampled_from([0, 0, 0, 1]))
-    if long_run:
+    long_run = 0 if pb else draw(st.sampled_from([0, 0, 0, 1]))
+    if pb:
+        N = draw(st.integers(8, 14))
+        splits = list(range(1, N))
+    elif long_run:
         N = draw(st.integers(2000, 20000))
         splits = sorted(set(draw(st.lists(st.integers(1, N - 1), min_size=1, max_size=4 if tier == 'quick' else 12))))
     else:
@@ -126,16 +147,17 @@ def cases(draw, tier):
     regs = draw(gen_prog.registers())
     regs['SP'] = draw(st.sampled_from([0xFF00, 0x5C00, 0xBFFE, 0x4002, 0x4001, 0x4000, 0x3FFF, 0x0002, 0x0000]))      # incl. pushes into ROM and across the ROM/RAM boundary
     regs['I'] = draw(st.sampled_from([0x3F, 0x90, 0x40, 0x00]))
+    force = 'pageblk' in kinds          # contention after a paging block OUT: the contended simulators, mostly the Python one
     return {
         'machine': machine, 'org': org, 'code': code, 'kinds': kinds,
         'fill_seed': draw(st.integers(0, 2 ** 32 - 1)), 'fill_style': draw(st.sampled_from([0, 0, 1])),
         'regs': regs, 'im': draw(st.integers(0, 2)), 'iff': 1 if long_run else draw(st.integers(0, 1)), 'tstates': tstates,
-        'border': draw(st.integers(0, 7)), 'o7ffd': draw(st.sampled_from([0, 0x10, 7, 0x11])) if machine == '128K' else 0,
+        'border': draw(st.integers(0, 7)), 'o7ffd': ((pb_v ^ 1) & 0x17 if pb and draw(st.integers(0, 3)) else draw(st.sampled_from([0, 0x10, 7, 0x11]))) if machine == '128K' else 0,
         'N': N, 'splits': splits, 'fmt': draw(st.sampled_from(['szx', 'z80'])), 'start_fmt': draw(st.sampled_from(['szx', 'z80'])),
-        'cmio': draw(st.booleans()),
+        'cmio': True if force else draw(st.booleans()),
         # an interrupt routine of several instructions, so that split points fall between acceptance and return
         'isr': draw(st.sampled_from([None, [0x14, 0x1C, 0x04, 0xFB, 0xC9], [0xF5, 0x3C, 0xF1, 0xFB, 0xC9], [0x00, 0x00, 0xFB, 0xED, 0x4D]])),
-        'python': draw(st.sampled_from([False, False, False, True])) if tier == 'quick' else draw(st.booleans()),
+        'python': draw(st.sampled_from([True, True, False])) if force else (draw(st.sampled_from([False, False, False, True])) if tier == 'quick' else draw(st.booleans())),
     }
 
 
@@ -236,6 +258,15 @@ def oracle(case, rec=None):
                     sig = 'resume:%s' % k
                     if k == 'tstates' and case['cmio'] and _saved_at_halt(b1_file, case):
                         sig = 'resume:tstates:cmio-saved-inside-halt'
+                    elif case['cmio'] and _saved_at_halt(b1_file, case):
+                        # a later consequence of the same shift (e.g. the frame interrupt accepted one HALT operation
+                        # earlier or later in a long run): F7 only if the frame position is already off after the
+                        # very first operation of the resumed leg
+                        c1_file, _ = run_trace(s, sub, start, n1 + 1, 'c1.' + fmt)
+                        c2_file, _ = run_trace(s, sub, b1_file, 1, 'c2.' + fmt)
+                        if decode(c1_file)['tstates'] % frame != decode(c2_file)['tstates'] % frame:
+                            sig = 'resume:tstates:cmio-saved-inside-halt'
+                            detail += ' (frame position already differs one operation after the split)'
                     raise Violation(sig, '%s %s %s%s: %s' % (case['machine'], fmt, '-c ' if case['cmio'] else '', '--python' if case['python'] else 'C', detail), sub)
             if a_stop != b_stop:
                 raise Violation('resume:stop-line', 'stdout %r vs %r (split %d)' % (a_stop, b_stop, n1), sub)
